@@ -418,8 +418,11 @@ def coproc_accepted_cp15(M):
 
     def trap():
         if not M.privileged():
-            # InstrIsPL0Undefined(): a mock hook on the stock target; the hooked target says no
+            # InstrIsPL0Undefined(): a mock hook on the stock target; the hooked target answers opc2<0> (vf/target.py). Whether such an access is UNDEFINED
+            # instead of trapped is the configuration's IMPLEMENTATION DEFINED choice
             hook(M, 'InstrIsPL0Undefined')
+            if (w >> 5) & 1 and M.cfg.get('coproc_accepted_pl0_undefined'):
+                raise Undef('CP15 access that is UNDEFINED at PL0')
         M.write_hsr(0b000100 if two_reg else 0b000011, iss(), M.cur_cond, True)
         raise HypTrap()
     if guest and crn != 14 and (M.s['hstr'] >> crn) & 1:
